@@ -652,7 +652,9 @@ func (r *Run) c11OrdinaryScans() {
 		if !ok || len(from.Succs) != 2 || from.Succs[0] == from.Succs[1] {
 			return false
 		}
-		return GuardNilness(Guard{iff.Cond, from.Succs[0] == to, from}, func(v ssa.Value) bool { return ends.classOf(v) != 0 }) == 1
+		return c11GuardImplies(Guard{iff.Cond, from.Succs[0] == to, from}, func(g Guard) bool {
+			return GuardNilness(g, func(v ssa.Value) bool { return ends.classOf(v) != 0 }) == 1
+		})
 	}
 
 	type need struct {
@@ -941,6 +943,15 @@ func (c *c11Ctl) directedFact(g Guard) (val, ok bool) {
 
 // contradicts: the branch outcome g cannot be taken in case cs.
 func (c *c11Ctl) contradicts(g Guard, cs c11CtlCase) bool {
+	// a branch on a short-circuit condition kept in a boolean (the case of a tagless switch): excluded when every way
+	// of giving the boolean that value is (robust_c11.go, c11GuardCases)
+	if _, isPhi := g.Cond.(*ssa.Phi); isPhi {
+		return c11GuardImplies(g, func(x Guard) bool { return c.contradicts1(x, cs) })
+	}
+	return c.contradicts1(g, cs)
+}
+
+func (c *c11Ctl) contradicts1(g Guard, cs c11CtlCase) bool {
 	if d, ok := c.directedFact(g); ok {
 		return d != cs.directed
 	}
